@@ -17,6 +17,9 @@ SPEC = os.path.join(VERIF, "spec")
 HARNESS = os.path.join(VERIF, "harness")
 OUT = os.path.join(VERIF, "out")
 EVID = os.path.join(VERIF, "evidence")
+if os.path.realpath(REPO) != "/repo":
+    # a scratch copy of the repository (seeded changes): keep /verif/evidence for runs against /repo itself
+    EVID = os.path.join(OUT, "_scratch_evidence")
 TLA_CP = "/opt/veriftools/tla/tla2tools.jar:/opt/veriftools/tla/CommunityModules-deps.jar"
 NCPU = os.cpu_count() or 4
 
